@@ -105,6 +105,9 @@ func New(prop, tier, level string) *Run {
 		start: time.Now(), dir: Dir(),
 	}
 	b, err := os.ReadFile(filepath.Join(r.dir, "known_findings.json"))
+	if out := os.Getenv("VERIF_OUT"); out != "" {
+		r.dir = out // evidence/ and replays/ of scratch runs go elsewhere
+	}
 	if err == nil {
 		var f struct {
 			Findings []Finding `json:"findings"`
